@@ -16,7 +16,14 @@ for c in $(git -C /repo log --format=%h --reverse main..ws-$n); do
   esac
 done
 echo "== verif merge ws-$n"
-git -C /verif merge --no-edit ws-$n
+if ! git -C /verif merge --no-edit ws-$n; then
+  # evidence files of other properties rewritten by the worker: keep ours
+  for f in $(git -C /verif diff --name-only --diff-filter=U | grep '^evidence/'); do
+    git -C /verif checkout --ours "$f"; git -C /verif add "$f"
+  done
+  git -C /verif diff --name-only --diff-filter=U | grep -q . && { echo "UNRESOLVED CONFLICTS"; exit 1; }
+  git -C /verif commit -q --no-edit
+fi
 # rewrite the worker's commit hashes in known_findings to the hashes on /repo main
 if [ -f /tmp/ws/$n/hashmap ]; then
   while read old new; do
